@@ -37,11 +37,8 @@ func verifWalkSchemaErrors(err error, f func(*SchemaError), depth int) {
 		for _, m := range e {
 			verifWalkSchemaErrors(m, f, depth+1)
 		}
-	case multiErrorForOneOf:
-		for _, m := range e {
-			verifWalkSchemaErrors(m, f, depth+1)
-		}
 	default:
+		// anything else that wraps (the oneOf error list unwraps to a MultiError)
 		verifWalkSchemaErrors(errors.Unwrap(err), f, depth+1)
 	}
 }
